@@ -314,7 +314,7 @@ func ruleR2R3(c *Ctx) {
 				}
 				continue
 			}
-			if rn := recvNamed(g); rn != nil && rn.Obj().Name() == "owners" {
+			if rn := recvNamed(g); rn != nil && tname(rn.Obj()) == "owners" {
 				n++
 				found = g
 				args := call.Call.Args
@@ -374,7 +374,7 @@ func ruleR2R3(c *Ctx) {
 	}
 	// distinct slots, all slots covered
 	for i := 0; i < ownersT.NumFields(); i++ {
-		slot := ownersT.Field(i).Name()
+		slot := fname(ownersT.Field(i))
 		cs := slotClaim[slot]
 		c.ok("R3", "slot/"+slot, ownersT.Field(i).Pos(), len(cs) == 1, fmt.Sprintf("ledger slot %q is filled by exactly one claim", slot),
 			fmt.Sprintf("slot is used by %d claims %v: distinct items share an owner record (false conflicts) or an item has no owner record", len(cs), cs))
@@ -704,7 +704,7 @@ func ruleR5(c *Ctx) {
 			what := fmt.Sprintf("error of %s called in %s is returned to the caller", g.Name(), funcKey(f))
 			st, detail := errPropagated(m, f, call)
 			if st == "ignorefailure" {
-				c.ok("R5", key, call.Pos(), f.Name() == "update" && g.Name() == "updateResources", what+" (dropped only under IgnoreFailure)",
+				c.ok("R5", key, call.Pos(), f == m.method(pkgAdapt, "result", "update") && g == m.method(pkgAdapt, "result", "updateResources"), what+" (dropped only under IgnoreFailure)",
 					"an error is dropped under an IgnoreFailure flag at a place other than update()/updateResources")
 				continue
 			}
@@ -1161,7 +1161,7 @@ func isResultRecv(v ssa.Value) bool {
 		return false
 	}
 	n := recvNamed(p.Parent())
-	return n != nil && n.Obj().Name() == "result"
+	return n != nil && tname(n.Obj()) == "result"
 }
 
 // resolveParamAP: the access path that every static caller passes for parameter prm of f (all callers must agree).
